@@ -33,7 +33,7 @@ N = 600_000
 GPARAMS = [dict(chunklen=300_000),                                  # 2 chunks
            dict(chunklen=250_000, stepsize=175_000),                # 3 frames (last is a remainder)
            dict(chunklen=200_000, startindex=250_000)]              # 2 chunks (150k remainder)
-RW_INDEX = [5, 250_005, 450_005, 599_999]
+RW_INDEX = [200_000, 400_000, 5, 250_005, 450_005, 599_999]   # the first two lie in the overlap of consecutive g1 frames
 
 
 def gframes(g):
